@@ -53,8 +53,26 @@ type Outcome struct {
 }
 
 // Exec runs the check once on the given tape.
+// heartbeat tells the driver that another execution begins (first runs, minimisation and
+// self-check replays alike). A shard whose heartbeat stops for minutes is stuck inside one
+// execution: the driver then asks the Go runtime for its goroutine stacks (SIGQUIT) and
+// decides from them whether a shipped worker spins or the harness hangs.
+var (
+	beatPath  = os.Getenv("VERIF_BEAT")
+	beatCount uint64
+)
+
+func heartbeat() {
+	if beatPath == "" {
+		return
+	}
+	beatCount++
+	_ = os.WriteFile(beatPath, []byte(strconv.FormatUint(beatCount, 10)), 0o644)
+}
+
 func (c *Check) Exec(t *testing.T, tape *Tape, trace bool) (out *Outcome) {
 	e := newEnv(t, tape, trace)
+	heartbeat()
 	ticks = 0 // the yield points of core.Tick are a function of the run, not of the process
 	tape.OnOverrun = func() { e.Infra("replayed tape overrun: a harness loop does not terminate on zero draws") }
 	body := func(t *testing.T) {
